@@ -98,7 +98,10 @@ class PersistentMixin(Module):
         try:
             with open(self.persistentFile, 'r', encoding='utf-8') as f:
                 self.persistentData = json.load(f)
-        except (FileNotFoundError, ValueError):
+        except (OSError, ValueError):
+            self.persistentData = {}
+        if not isinstance(self.persistentData, dict):
+            # valid JSON, but not a saved snapshot
             self.persistentData = {}
         result = {}
         for pname, value in self.persistentData.items():
